@@ -1,12 +1,33 @@
-def ColOk (col : List Nat) : Prop := ∀ a ∈ col, ∀ b ∈ col, a = b ∨ a = 1 ∨ b = 1
-example (a s : Nat) (rest : List Nat) (hc : s = a ∨ s = 1 ∨ a = 1) :
-    ColOk ((if s = 1 then a else s) :: rest) ↔ ColOk (a :: s :: rest) := by
-  unfold ColOk
-  simp only [List.mem_cons, forall_eq_or_imp]
-  constructor
-  · intro h
-    trace_state
-    sorry
-  · intro h
-    trace_state
-    sorry
+import SparseV.Lemmas.Broadcast
+open SparseV
+
+variable {α : Type} [Inhabited α] [DecidableEq α]
+
+/-- the fill-value array of `_get_fill_value` -/
+def fillArrOf (f : List α → α) (ops : List (Operand α)) (ndShape : List Nat) : List α :=
+  (allIdx ndShape).map fun i => f (ops.map fun o => o.fillAt ndShape i)
+def fillOf (f : List α → α) (ops : List (Operand α)) (ndShape : List Nat) : α :=
+  (fillArrOf f ops ndShape).headD (f (ops.map fun o => match o with | .coo x => x.fill | _ => default))
+def candsOf (ops : List (Operand α)) (shape : List Nat) : List Idx :=
+  (ops.flatMap fun o => match o with
+    | .coo x => (COO.expand x.entries x.shape shape).map (·.1)
+    | _ => []).eraseDups
+def entriesOf (f : List α → α) (ops : List (Operand α)) (shape : List Nat) (fill : α) : List (Idx × α) :=
+  (candsOf ops shape).filterMap fun i =>
+    let v := f (ops.map fun o => o.valueAt shape i)
+    if v = fill then none else some (i, v)
+
+theorem elemwiseN_eq (f : List α → α) (ops : List (Operand α)) (shape ndShape : List Nat)
+    (hc : ops.any Operand.isCoo = true) (hs : bshapeN (ops.map Operand.shape) = .ok shape)
+    (hn : bshapeN ((ops.filter Operand.isDense).map Operand.shape) = .ok ndShape) :
+    elemwiseN f ops =
+      if (fillArrOf f ops ndShape).all (· = fillOf f ops ndShape) then
+        if shape.any (· = 0) then .ok (.sparse { shape := shape, entries := [], fill := fillOf f ops ndShape })
+        else .ok (.sparse { shape := shape, entries := COO.sortEntries shape (entriesOf f ops shape (fillOf f ops ndShape)), fill := fillOf f ops ndShape })
+      else if shape = ndShape then
+        .ok (.dense shape ((allIdx shape).map fun i => f (ops.map fun o => o.valueAt shape i)))
+      else .error .value := by
+  unfold elemwiseN
+  simp only [hc, hs, hn]
+  simp only [Bool.not_true, Bool.false_eq_true, if_false]
+  rfl
